@@ -10,7 +10,8 @@ about *placement* for all pipelines.
 
 All theorems are for ALL event lists `evs` (any program, any length, any order of fulfilling / draining / starting /
 dropping) and ALL executor configurations `cfg` (any rejection position).  The log theorems (`called_xor_dropped`,
-`drop_only_if_stopped`, `placement`) are unconditional; the ones that compare with `spec` carry the D10 guard of C02.
+`drop_only_if_stopped`, `placement`) and the ones that compare with `spec` are unconditional (D10 is fixed: /repo 4f7ebfc;
+an inner Schedule / LazyContract head returned from a continuation is now a submitted job like any other).
 -/
 import YaclibModel.Proofs.PipelineLog2
 import YaclibModel.Proofs.PipelineSpec
@@ -31,8 +32,9 @@ def pending (st : State) : List Nat :=
   | .pending t => pendOf t.wait
   | _ => []
 
-theorem jobs_range (hc : (run cfg {} evs).crashed = false) :
+theorem jobs_range :
     (run cfg {} evs).g.jobs.map (·.1) ++ pending (run cfg {} evs) = List.range (run cfg {} evs).g.subs.length := by
+  have hc := run_not_crashed cfg evs
   have h := log_invariant cfg evs
   cases h with
   | inl h => rw [hc] at h; cases h
@@ -43,12 +45,12 @@ theorem jobs_range (hc : (run cfg {} evs).crashed = false) :
 /-- **contract_manual / contract_inline — Called xor Dropped, exactly once**: in every reachable state no job has been
     finished twice and only submitted jobs are finished; once nothing is queued any more (in particular in every terminal
     state) EVERY submitted job has been finished exactly once, in submission (FIFO) order -/
-theorem called_xor_dropped (hc : (run cfg {} evs).crashed = false) :
+theorem called_xor_dropped :
     ((run cfg {} evs).g.jobs.map (·.1)).Nodup ∧
     (∀ j ∈ (run cfg {} evs).g.jobs.map (·.1), j < (run cfg {} evs).g.subs.length) ∧
     (pending (run cfg {} evs) = [] →
       (run cfg {} evs).g.jobs.map (·.1) = List.range (run cfg {} evs).g.subs.length) := by
-  have h := jobs_range cfg evs hc
+  have h := jobs_range cfg evs
   have hnd : ((run cfg {} evs).g.jobs.map (·.1) ++ pending (run cfg {} evs)).Nodup := by
     rw [h]; exact List.nodup_range
   refine ⟨(List.nodup_append.1 hnd).1, ?_, ?_⟩
@@ -62,9 +64,10 @@ theorem called_xor_dropped (hc : (run cfg {} evs).crashed = false) :
 
 /-- **drop_only_if_stopped**: a job is Dropped iff its executor refused it at the Submit (it had accepted `limit` Submits
     already); otherwise it is Called -/
-theorem drop_only_if_stopped (hc : (run cfg {} evs).crashed = false) (j : Nat) (called : Bool)
+theorem drop_only_if_stopped (j : Nat) (called : Bool)
     (hj : (j, called) ∈ (run cfg {} evs).g.jobs) :
     called = !(rejects cfg ((run cfg {} evs).g.subs.take j) ((run cfg {} evs).g.subs.getD j 0)) := by
+  have hc := run_not_crashed cfg evs
   have h := log_invariant cfg evs
   cases h with
   | inl h => rw [hc] at h; cases h
@@ -79,8 +82,9 @@ theorem terminal_nothing_queued (ht : (run cfg {} evs).terminal = true) : pendin
 /-- **placement**: a functor body of a step that was submitted to user executor k (Then(e,f) / Detach(e,f): e = k;
     Then(f) / Detach(f): the inherited executor is k; a Run / Schedule head: its executor) runs inside k's
     Submit / Call / Drop frame and nowhere else -/
-theorem placement (hc : (run cfg {} evs).crashed = false) (x : Ran) (hx : x ∈ (run cfg {} evs).g.ran) (k : Nat)
+theorem placement (x : Ran) (hx : x ∈ (run cfg {} evs).g.ran) (k : Nat)
     (hv : x.via = some (.user k)) : x.ctx = some k := by
+  have hc := run_not_crashed cfg evs
   have h := log_invariant cfg evs
   cases h with
   | inl h => rw [hc] at h; cases h
@@ -115,11 +119,11 @@ theorem successor_inherits_own (s : Step) (input : R) (own : Exec) (subs inv : L
     · rw [specCall_skip _ _ _ _ _ _ _ _ _ (by simpa using hr)]
 
 /-- the Submits the mechanism made are exactly the ones the sequential reading makes (same executors, same order) -/
-theorem submits_as_spec (p : Prog) (h : Handle) (hcl : client evs = some (p, h)) (hd : d10FreeProg p = true)
+theorem submits_as_spec (p : Prog) (h : Handle) (hcl : client evs = some (p, h))
     (ht : (run cfg {} evs).terminal = true) : (run cfg {} evs).g.subs = (spec cfg p).subs := by
   have hi := inv_run cfg evs
   rw [hcl] at hi
-  obtain ⟨_, hi⟩ := hi hd
+  obtain ⟨_, hi⟩ := hi
   cases hctl : (run cfg {} evs).ctl with
   | idle => rw [hctl] at hi; exact hi.elim
   | task src steps => simp [State.terminal, hctl] at ht
@@ -179,14 +183,14 @@ theorem stop_error_routing :
     executor run the queued job — at most `measure` many, Proofs/PipelineTerm.lean) bring the pipeline to rest; and when it
     rests with a result, that is `spec`'s outcome, which folds over ALL steps behind the rejected one
     (C02.mech_terminal_eq_spec, `submits_as_spec`). -/
-theorem chain_completes_after_reject (p : Prog) (h : Handle) (hcl : client evs = some (p, h)) (hd : d10FreeProg p = true) :
+theorem chain_completes_after_reject (p : Prog) (h : Handle) (hcl : client evs = some (p, h)) :
     (run cfg {} evs).crashed = false ∧
     (∀ t, (deliverN cfg (run cfg {} evs).measure (run cfg {} evs)).ctl ≠ .pending t) ∧
     (∀ t, (run cfg {} evs).ctl = .pending t →
       (mech cfg (run cfg {} evs) t.delivery).measure < (run cfg {} evs).measure) := by
   have hi := inv_run cfg evs
   rw [hcl] at hi
-  obtain ⟨hc, _⟩ := hi hd
+  obtain ⟨hc, _⟩ := hi
   refine ⟨hc, ?_, fun t ht => delivery_decreases cfg _ t hc ht⟩
   -- the deliveries are client events: the states `deliverN` visits are reachable, hence do not crash
   have hreach : ∀ (n : Nat) (evs' : List Event), client evs' = some (p, h) →
@@ -244,7 +248,7 @@ theorem chain_completes_after_reject (p : Prog) (h : Handle) (hcl : client evs =
   have hnc : (run cfg {} evs'').crashed = false := by
     have hi2 := inv_run cfg evs''
     rw [h1] at hi2
-    exact (hi2 hd).1
+    exact hi2.1
   cases comes_to_rest cfg _ (run cfg {} evs) (Nat.le_refl _) with
   | inl hcr => rw [h2, hnc] at hcr; cases hcr
   | inr hrest => exact hrest
